@@ -4,7 +4,9 @@
 //! driver's operation markers).  Then
 //!   * for every crash point k (a prefix of k completed calls) and each persistence model, build
 //!     the image, reopen it with the real code and judge what is read back;
-//!   * for every call j and errno in {EIO, ENOSPC}, re-execute H with exactly that call failing.
+//!   * for every call j and errno in {EIO, ENOSPC}, re-execute H with exactly that call failing;
+//!     for every write also with that call transferring only half its bytes (short write), and
+//!     for every write and sync with that call interrupted (EINTR): the operation must complete.
 
 use std::collections::{BTreeMap, BTreeSet};
 use std::panic::{catch_unwind, AssertUnwindSafe};
@@ -577,9 +579,17 @@ fn crash_history(
         };
         js.sort();
         for j in js {
-            for errno in [libc::EIO, libc::ENOSPC] {
+            for errno in [libc::EIO, libc::ENOSPC, libc::EINTR, fsx::SHORT_WRITE] {
                 let kind = rec.points[j].next_kind;
                 if errno == libc::ENOSPC && !matches!(kind, "write" | "create" | "mkdir" | "link") {
+                    continue;
+                }
+                // an interrupted call and a short transfer are not errors: the caller has to
+                // carry on, and the operation has to complete as if nothing had happened
+                if errno == libc::EINTR && !matches!(kind, "write" | "sync") {
+                    continue;
+                }
+                if errno == fsx::SHORT_WRITE && kind != "write" {
                     continue;
                 }
                 fault_run(h, &base.join("flt"), j as u64, errno, &rec, &mut res);
@@ -661,7 +671,16 @@ fn fault_run(h: &History, root: &Path, j: u64, errno: i32, rec: &Recorded, res: 
             detail,
         });
     };
-    let ename = if errno == libc::EIO { "EIO" } else { "ENOSPC" };
+    let ename = match errno {
+        libc::EIO => "EIO",
+        libc::ENOSPC => "ENOSPC",
+        libc::EINTR => "EINTR",
+        fsx::SHORT_WRITE => "SHORT-WRITE",
+        _ => "errno",
+    };
+    // EINTR and a short transfer are not failures of the device: success of the operation is
+    // the expected outcome, not a swallowed error.
+    let benign = errno == libc::EINTR || errno == fsx::SHORT_WRITE;
     // The fault may fire during the initial open.
     let mut outcome = "not-fired";
     let mut prev = Map::new();
@@ -681,7 +700,7 @@ fn fault_run(h: &History, root: &Path, j: u64, errno: i32, rec: &Recorded, res: 
         Ok(Ok(())) => {
             if fsx::fault_fired().is_some() {
                 let fired = fsx::fault_fired().unwrap();
-                if !best_effort_site(&fired) {
+                if !benign && !best_effort_site(&fired) {
                     v("io-error-swallowed:open".to_string(), format!("{fired} during open, open returned Ok"));
                 }
                 outcome = "open-swallowed";
@@ -720,7 +739,7 @@ fn fault_run(h: &History, root: &Path, j: u64, errno: i32, rec: &Recorded, res: 
                 (Ok(Ok(())), Some(f)) => {
                     fired_at = Some(i);
                     outcome = "op-returned-ok";
-                    if !best_effort_site(f) {
+                    if !benign && !best_effort_site(f) {
                         v(
                             format!("io-error-swallowed:{}:{}", op.kind(), kind_of_fired(f)),
                             format!("{f} during {} but the call returned Ok", op.kind()),
@@ -999,7 +1018,7 @@ pub fn cmd_crash(args: &Args) -> i32 {
         seed,
         evaluations: images + fault_runs,
         distinct_nontrivial: distinct.len() as u64,
-        rule: "one evaluation = one crash image (a prefix of the recorded system-call trace of a seeded history, under persistence model A = every completed call persists, B0 = unsynced file bytes lost, Bn = a seeded prefix of each file's unsynced whole writes survives) materialised and reopened with the real code, or one re-execution of the history with exactly one call failing with EIO/ENOSPC; distinct non-trivial = distinct (next call kind, operation in flight, directory the call touches, persistence model) for images and (errno, call kind, operation, directory) for faults".to_string(),
+        rule: "one evaluation = one crash image (a prefix of the recorded system-call trace of a seeded history, under persistence model A = every completed call persists, B0 = unsynced file bytes lost, Bn = a seeded prefix of each file's unsynced whole writes survives) materialised and reopened with the real code, or one re-execution of the history with exactly one call failing with EIO/ENOSPC, being interrupted (EINTR, writes and syncs) or transferring half its bytes (short write); distinct non-trivial = distinct (next call kind, operation in flight, directory the call touches, persistence model) for images and (errno, call kind, operation, directory) for faults".to_string(),
         samples,
         wall_s: wall,
         violations: new_classes,
